@@ -96,6 +96,32 @@ def step (_ : Unit) (fields : List String) (impl : String) : Unit × Drv.Reply :
         | _ => false
       ((), Drv.Reply.det mstr impl (holdsReconnect r me ms) okI)
     | none => ((), Drv.Reply.bad)
+  | "lives" :: _how :: toks =>
+    let parseTok (t : String) : Option Model.C16.Reply := parseReply ((t.splitOn "|").headD "")
+    match toks.mapM parseTok with
+    | some rs =>
+      let showL (cls : String) (x : Option Bool × Nat × Nat) : String :=
+        cls ++ " " ++ showErr x.1 ++ " " ++ toString x.2.1 ++ " " ++ toString x.2.2
+      let clsOf (t : String) : String := (t.splitOn "|").headD ""
+      let m := modelLives rs
+      let mstr := String.intercalate ";" ((toks.zip m).map fun (t, x) => showL (clsOf t) x)
+      let parseL (s : String) : Option (Option Bool × Nat × Nat) :=
+        match s.splitOn " " with
+        | [_, e, a, n] => do
+          let e ← parseErr e
+          let a ← a.toNat?
+          let n ← n.toNat?
+          pure (e, a, n)
+        | _ => none
+      let okI := match (impl.splitOn ";").mapM parseL with
+        | some io => holdsLives rs io
+        | none => false
+      -- correspondence: error class and state must be the model's; the number of announcements only has to be positive
+      let agree := match (impl.splitOn ";").mapM parseL with
+        | some io => io.length == m.length && (io.zip m).all fun (i, x) => i.1 == x.1 && i.2.1 == x.2.1 && (i.2.2 == 0) == (x.2.2 == 0)
+        | none => false
+      ((), { Drv.Reply.det mstr impl (holdsLives rs m) okI with agree := agree })
+    | none => ((), Drv.Reply.bad)
   | _ => ((), Drv.Reply.bad)
 
 def handler : Handler := ⟨Unit, fun _ => (), step⟩
